@@ -223,25 +223,34 @@ def add_cross_region(case, rng):
     regs = [pp + (n,) for n in defs[pp]['initial'] if pp + (n,) in defs]
     if len(regs) < 2:
         return False
-    ra, rb = rng.sample(regs, 2)
-
     def below(r):
         return [p for p in defs if p[:len(r)] == r]
-    la = rng.choice([p for p in act if p[:len(ra)] == ra])
-    lb = rng.choice([p for p in act if p[:len(rb)] == rb])
-    e, ts = m['events'][0]
-    leaves_a = [p for p in act if p[:len(ra)] == ra and not any(q != p and q[:len(p)] == p for q in act)]
-    leaves_b = [p for p in act if p[:len(rb)] == rb and not any(q != p and q[:len(p)] == p for q in act)]
-    la, lb = rng.choice(leaves_a), rng.choice(leaves_b)
+
+    def leaves(r):
+        return [p for p in act if p[:len(r)] == r and not any(q != p and q[:len(p)] == p for q in act)]
 
     def divergent(r, leaf):
         # a state of region r on another branch than `leaf`: entering it leaves `leaf`
         c = [p for p in below(r) if p[:len(leaf)] != leaf and leaf[:len(p)] != p]
         return rng.choice(c) if c else rng.choice(below(r))
-    # whichever source is offered first, its transition leaves the other one
+    e, ts = m['events'][0]
+    doc = {p: k for k, p in enumerate(defs)}                      # document order
+    picks = [(r, rng.choice(leaves(r))) for r in regs if leaves(r)]
+    if len(picks) < 2:
+        return False
+    # the order in which trigger_nested offers the event: deepest level first, document order inside a level
+    picks.sort(key=lambda rl: (-len(rl[1]), doc[rl[1]]))
+    if rng.random() < 0.5 or len(picks) < 3:
+        rng.shuffle(picks)
+    (ra, la), (rb, lb) = picks[0], picks[1]
+    # la's transition leaves lb (and lb's leaves la: whichever is offered first); every further region declares the
+    # event too and must still get its turn after a source that has been left
     extra = [dict(src=list(la), dst=list(divergent(rb, lb)), prepare=[], conds=[], before=[], after=[]),
              dict(src=list(lb), dst=list(divergent(ra, la)), prepare=[], conds=[], before=[], after=[])]
-    m['events'][0] = (e, extra + [t for t in ts if t['src'] not in (list(la), list(lb))])
+    for rc, lc in picks[2:]:
+        extra.append(dict(src=list(lc), dst=list(divergent(rc, lc)), prepare=[], conds=[], before=[], after=[]))
+    srcs = [t['src'] for t in extra]
+    m['events'][0] = (e, extra + [t for t in ts if t['src'] not in srcs])
     case['history'] = [(k, (e if j % 2 == 0 else ev), a) for j, (k, ev, a) in enumerate(case['history'])] or [(0, e, 100)]
     return True
 
